@@ -324,9 +324,22 @@ def snapshot_obj(o, prog, cname, vsc):
         elif k == "list":
             with vsc.raw_mode():
                 l = getattr(o, n)
-            it = list(l)
-            ln = len(l)
-            sz = l.size
+            try:
+                it = list(l)
+                ln = len(l)
+                sz = l.size
+                if fd["ek"] == "int":
+                    [int(l[i]) for i in range(ln)]
+            except Exception as e:
+                # a read path of the library that raises is an observation about the list (its views disagree),
+                # not a failure of the harness
+                try:
+                    ln, sz = len(l), l.size
+                except Exception:
+                    ln, sz = -1, -1
+                out["f"][n] = []
+                out["alt"][n] = (ln, sz, ["<reading the list raised %s: %s>" % (type(e).__name__, e)])
+                continue
             if fd["ek"] == "obj":
                 out["f"][n] = [snapshot_obj(x, prog, fd["c"], vsc) for x in it]
                 out["alt"][n] = (ln, sz, None)
